@@ -297,8 +297,13 @@ def run(plan, ctx):
         fk = fault.get("kind")
         if fk:
             bump("fault_configured:" + (fk if fk != "io" else "io:" + fault["what"]))
+            on_include = fk == "io" and (op == "loads" or int(fault.get("nth", 1)) >= 2)
+            if on_include and len(ev.get("opens") or []) + (0 if ev.get("fired") else 1) > 0:
+                bump("fault_configured:io_on_an_included_file")
             if ev.get("fired"):
                 bump("fault_fired:" + (fk if fk != "io" else "io:" + fault["what"]))
+                if on_include:
+                    bump("fault_fired:io_on_an_included_file")
         if st.get("planted"):
             bump("planted:" + st["planted"])
             if not ev.get("ok"):
@@ -365,6 +370,22 @@ def _short(ev, n=300):
     if d and d[0] == "text":
         return ("program %s dumps=%r" % (D.sha(ev.get("res")), d[1]))[:n]
     return ("program %s dumps=%r" % (D.sha(ev.get("res")), d))[:n]
+
+
+def effectiveness(total, tier):
+    if total.get("loads", 0) < 2000:
+        return None
+    problems = []
+    for k, v in total.items():
+        if k.startswith("fault_configured:") and v >= 30 and not total.get("fault_fired:" + k.split(":", 1)[1]):
+            problems.append("fault kind %s was configured %d times and never fired" % (k.split(":", 1)[1], v))
+    if not total.get("compared_loads"):
+        problems.append("no load was compared with a pristine process")
+    if total.get("loads_failed", 0) in (0, total.get("loads", 0)):
+        problems.append("loads either all failed or all succeeded")
+    if not any(k.startswith("planted_failed:") for k in total):
+        problems.append("no planted failure failed")
+    return "; ".join(problems) or None
 
 
 def describe():
